@@ -40,6 +40,7 @@ fn main() {
         "C02" => props::c02::run(&mut ctx),
         "C03" => props::c03::run(&mut ctx),
         "C06" => props::c06::run(&mut ctx),
+        "C10" => props::c10::run(&mut ctx),
         "C12" => props::c12::run(&mut ctx),
         "C18" => props::c18::run(&mut ctx),
         "C13" => props::c13::run(&mut ctx),
